@@ -25,7 +25,7 @@ def check(run):
     common.mc_structs(run, kinds=("identity",))
     run.gen("Gen_C10")
     common.gen_structs(run, fams1=("ident", "cert"), fams2=("sig", "offsig", "els"))
-    for fam in ("ident", "keycert"):
+    for fam in ("ident", "keycert", "ls2"):   # ls2: the leaseset constructor's own key-size validation
         run.gen("Gen_Build", consts={"Fam": fam}, tag="Gen_Build_" + fam)
     run.replay_and_judge()
     return vlib.finish(run, "model_checking", RULE, ASSUME, extra_cov={"exhaustive_subspaces": ["all 65,536 type codes x every size lookup"]}, exhaustive=True)
